@@ -179,6 +179,11 @@ fn leaf_node(cfg: &WxmlCfg) -> BoxedStrategy<Node> {
         let is = prop_oneof![
             4 => pick(TEMPLATE_NAMES).prop_map(Val::Static),
             1 => (pick(TEMPLATE_NAMES), pick(TEMPLATE_NAMES), gexpr::ident_name(&cfg.expr)).prop_map(|(a, b, c)| Val::Bind(Expr::Cond(Box::new(Expr::Ident(c)), Box::new(Expr::Str(a)), Box::new(Expr::Str(b))))),
+            // a name that evaluates to the empty string / an unknown name instantiates nothing
+            1 => (pick(TEMPLATE_NAMES), gexpr::ident_name(&cfg.expr), any::<bool>(), prop_oneof![Just(""), Just("nope")]).prop_map(|(a, c, swap, other)| {
+                let (x, y) = if swap { (Expr::Str(other.to_string()), Expr::Str(a)) } else { (Expr::Str(a), Expr::Str(other.to_string())) };
+                Val::Bind(Expr::Cond(Box::new(Expr::Ident(c)), Box::new(x), Box::new(y)))
+            }),
         ];
         let key = prop_oneof![Just("a"), Just("b"), Just("c"), Just("item"), Just("list"), Just("x")].prop_map(|s: &str| s.to_string());
         let item = prop_oneof![
@@ -199,7 +204,20 @@ fn leaf_node(cfg: &WxmlCfg) -> BoxedStrategy<Node> {
                     .collect::<Vec<_>>()
             }),
         );
-        alts.push((2, (is, data).prop_map(|(is, data)| Node::Tis(Tis { is, data })).boxed()));
+        // the data object given by one expression (always an object value: `obj` is one in every data environment)
+        let data_expr = prop_oneof![
+            Just(Expr::Paren(Box::new(Expr::ident("obj")))),
+            gexpr::ident_name(&cfg.expr).prop_map(|c| Expr::Cond(Box::new(Expr::Ident(c)), Box::new(Expr::ident("obj")), Box::new(Expr::Paren(Box::new(Expr::ident("obj")))))),
+        ];
+        alts.push((
+            2,
+            (is, data, proptest::option::weighted(0.15, data_expr))
+                .prop_map(|(is, data, de)| match de {
+                    Some(e) => Node::Tis(Tis { is, data: None, data_expr: Some(e) }),
+                    None => Node::Tis(Tis { is, data, data_expr: None }),
+                })
+                .boxed(),
+        ));
     }
     if cfg.include {
         alts.push((1, prop_oneof![Just("inc/a"), Just("./inc/a"), Just("/inc/a.wxml"), Just("inc/b"), Just("../inc/b")].prop_map(|s: &str| Node::Include(s.to_string())).boxed()));
@@ -235,6 +253,18 @@ fn for_list(cfg: &WxmlCfg) -> BoxedStrategy<Val> {
         // an arbitrary arithmetic expression can denote a count of billions (a legal but useless template)
         1 => (gexpr::ident_name(&cfg.expr), gexpr::ident_name(&cfg.expr), gexpr::ident_name(&cfg.expr)).prop_map(|(c, a, b)| Val::Bind(Expr::Cond(Box::new(Expr::Ident(c)), Box::new(Expr::Ident(a)), Box::new(Expr::Ident(b))))),
         1 => proptest::collection::vec(e.clone(), 0..4).prop_map(|v| Val::Bind(Expr::Arr(v.into_iter().map(crate::model::expr::ArrItem::Item).collect()))),
+        // an array literal with a spread in front of / between positional items (update trees consumed by position)
+        1 => (proptest::collection::vec(gexpr::ident_name(&cfg.expr), 1..3), any::<bool>()).prop_map(|(tail, lead)| {
+            use crate::model::expr::ArrItem;
+            let mut items = vec![];
+            if lead {
+                items.push(ArrItem::Item(Expr::ident("a")));
+            }
+            // (`arr` is missing inside called templates: spread something that is always iterable)
+            items.push(ArrItem::Spread(Expr::Paren(Box::new(Expr::Binary(crate::model::expr::BinOp::Or, Box::new(Expr::ident("arr")), Box::new(Expr::Arr(vec![])))))));
+            items.extend(tail.into_iter().map(|t| ArrItem::Item(Expr::Ident(t))));
+            Val::Bind(Expr::Arr(items))
+        }),
         1 => (gexpr::ident_name(&cfg.expr), gexpr::ident_name(&cfg.expr)).prop_map(|(a, b)| Val::Bind(Expr::Index(Box::new(Expr::Ident(a)), Box::new(Expr::Ident(b))))),
         1 => Just(Val::Static("ab".into())),
         1 => Just(Val::Bind(Expr::Num("3".into()))),
@@ -316,6 +346,18 @@ pub fn group(cfg: &WxmlCfg) -> BoxedStrategy<Group> {
             };
             let mut seen = std::collections::HashSet::new();
             let wxs: Vec<Wxs> = wxs.into_iter().filter(|w| seen.insert(w.module().to_string())).collect();
+            // every declared module is read somewhere (a member that tells the module bodies apart)
+            let mut body = body;
+            for w in &wxs {
+                let m = Expr::Ident(w.module().to_string());
+                body.push(Node::Text(vec![
+                    Piece::Lit("#".into()),
+                    Piece::Bind(Expr::Member(Box::new(m.clone()), "k".into())),
+                    Piece::Bind(Expr::Call(Box::new(Expr::Member(Box::new(m.clone()), "f".into())), vec![Expr::Num("1".into())])),
+                    Piece::Bind(Expr::Member(Box::new(m), "hi".into())),
+                ]));
+            }
+            let body = normalise_nodes(body);
             let mut files = vec![Tmpl { path: "p".into(), imports, wxs, named: dedup_named(named), body }];
             files.push(Tmpl { path: "inc/a".into(), body: inc_a, ..Default::default() });
             files.push(Tmpl { path: "inc/b".into(), body: inc_b, ..Default::default() });
